@@ -5,6 +5,7 @@ import ast
 
 from sa.analyses.atomic import AtomicSection
 from sa.analyses.locks import LockHeld, canon_lock, held_names
+from sa.report import RuleAlias
 from sa.db import AnalysisError, ClassInfo, FunctionInfo, dotted, mangle, norm_stmt, own_nodes
 from sa.flow import Interp, WithEnter, call_of
 
@@ -114,6 +115,46 @@ def check_held(eng, run):
                 run.ob("C12.order", f"{fn.short}:write-awaited-inline", not spawns)
     run.floor("C12.held sender classes", n_classes, 5)
     run.floor("C12.held write sites", n_sites, 12)
+
+
+def check_flag_under_lock(eng, run):
+    """'every call succeeds': a flag that send_packet() tests under the send lock (closing / closed) is, outside exception arms, only
+    stored while that lock is held - a fair lock then orders the store after every sender that was already queued; a store made
+    before waiting for the lock makes those earlier callers fail with ClientClosedError"""
+    n = 0
+    for ci, mattr in sender_classes(eng):
+        lock_written = _written(ci, mattr)
+        sp = ci.methods.get("send_packet")
+        if sp is None or sp.self_name is None:
+            continue
+        # flags read in send_packet under the lock
+        flags = set()
+        for w in own_nodes(sp.node):
+            if isinstance(w, (ast.With, ast.AsyncWith)) and any(canon_lock(it.context_expr) == f"{sp.self_name}.{lock_written}" for it in w.items):
+                for i in ast.walk(w):
+                    if isinstance(i, ast.If) and any(isinstance(r, ast.Raise) for r in i.body):
+                        for a in ast.walk(i.test):
+                            if isinstance(a, ast.Attribute) and dotted(a.value) == sp.self_name and isinstance(a.ctx, ast.Load):
+                                flags.add(a.attr)
+        for fl in sorted(flags):
+            for fn in ci.methods.values():
+                if isinstance(fn.node, ast.Lambda) or fn.self_name is None or fn.name not in ("close", "aclose"):
+                    continue  # a graceful close; a disconnect notification (the connection is gone) may flag at once
+                stores = [st for st in own_nodes(fn.node) if isinstance(st, ast.Assign) and any(dotted(t) == f"{fn.self_name}.{fl}" for t in st.targets)
+                          and isinstance(st.value, ast.Constant) and st.value.value is True]
+                if not stores:
+                    continue
+                lock = f"{fn.self_name}.{lock_written}"
+                in_handler = {id(st) for h in ast.walk(fn.node) if isinstance(h, ast.ExceptHandler) for st in ast.walk(h)}
+                an = LockHeld(eng, {lock}, lambda node, a_, stores=stores: node in stores)
+                Interp(an, fn).run()
+                bad = [node for node, held in an.sites if lock not in held_names(held) and id(node) not in in_handler]
+                n += 1
+                for node in bad[:1]:
+                    run.finding("C12.held", fn, node, f"`{fl}` - tested by send_packet() under `{lock}` - is set before that lock is held: senders that were already queued on the lock when "
+                                f"{fn.name}() was called find it set and fail instead of having their packet sent")
+                run.ob("C12.held", f"{fn.short}:{fl}:stored-under-the-send-lock", not bad, stores=len(stores))
+    run.counters["flag_stores_checked"] = n
 
 
 def check_guards(eng, run):
@@ -335,8 +376,12 @@ def run(eng, run):
     run.not_decided += NOT_DECIDED
     check_lock_with_timeout(eng, run)
     check_held(eng, run)
+    check_flag_under_lock(eng, run)
     check_guards(eng, run)
     check_tls(eng, run)
+    from rules import c04, c08
+    c08.check_remove_after_write(eng, run, rule="C12.tls")
+    c04.check_prog(eng, RuleAlias(run, "C12.span"))
     check_fifo(eng, run)
 
 
@@ -404,4 +449,12 @@ BENIGN = [
             why="the lock is held through an exit stack"),
     Variant("tls-send-all-extra-local", _TLS + ".send_all", lambda fn: insert_before(fn, stmt_has("self._data_deque.append"), "view = memoryview(data)"),
             why="unrelated local introduced before the queueing"),
+]
+
+
+MUTANTS += [
+    Variant("server-client-closing-flag-set-before-the-lock-wait", "servers.async_tcp:_ConnectedClientAPI.aclose",
+            lambda fn: (fn.body.insert(0, ast.parse("self.__closing = True").body[0]),
+                        [blk.remove(st) for n_ in ast.walk(fn) for blk in [getattr(n_, "body", None)] if isinstance(blk, list) and n_ is not fn for st in list(blk) if isinstance(st, ast.Assign) and "__closing" in ast.unparse(st)]),
+            "C12.held", why="senders already queued on the fair lock fail with ClientClosedError (seed C12-8)"),
 ]
